@@ -7,6 +7,7 @@ import (
 	"sort"
 	"strings"
 	"sync"
+	"sync/atomic"
 	"time"
 )
 
@@ -160,6 +161,9 @@ func c07Round(rep *Report, m *MultiFixture, round int, ts []c07Tunnel) {
 	}
 	if round%5 == 1 {
 		c07Hold(rep, m, round)
+	}
+	if round == 2 {
+		c07StalledNeighbour(rep, m)
 	}
 	sort.Slice(evs, func(i, j int) bool { return evs[i].seq < evs[j].seq })
 	var sb strings.Builder
@@ -583,5 +587,65 @@ func c07Hold(rep *Report, m *MultiFixture, round int) {
 	rep.Count("hold_rounds", 1)
 	if failed > 0 && m.GW.Alive() {
 		rep.Violate("C07/setup-waits-for-other-tunnels", fmt.Sprintf("%d tunnels were being opened and held open together: %d of them did not get through their setup within 10 s while the others stayed open (%v)", K, failed, first), nil)
+	}
+}
+
+// c07StalledNeighbour: one tunnel's client stops reading while its host floods it, and then ends its
+// stream with bytes that cannot be framed; tunnels of other users opened afterwards must get through
+// their setup as if that tunnel did not exist.
+func c07StalledNeighbour(rep *Report, m *MultiFixture) {
+	victim := m.Users[0]
+	env := m.Env(victim, "ws")
+	env.W = 10 * time.Second
+	t, bc, _, err := m.Stage(env, victim, 4)
+	if err != nil || bc == nil {
+		rep.Inconclusive("stalled-neighbour: first tunnel not established")
+		return
+	}
+	t.PauseReading()
+	chunk := GenStream(99, 64*1024)
+	total := 0
+	for total < 256<<20 {
+		bc.C.SetWriteDeadline(time.Now().Add(300 * time.Millisecond))
+		n, err := bc.C.Write(chunk)
+		total += n
+		if err != nil {
+			break
+		}
+	}
+	bc.C.SetWriteDeadline(time.Time{})
+	t.Send(PacketLen(PktData, []byte{1, 2, 3, 4, 5, 6, 7, 8}, 3))
+	time.Sleep(200 * time.Millisecond)
+	var wg sync.WaitGroup
+	failed := int32(0)
+	for i := 1; i <= 8; i++ {
+		wg.Add(1)
+		go func(i int) {
+			defer wg.Done()
+			u := m.Users[i%len(m.Users)]
+			if u == victim {
+				u = m.Users[(i+1)%len(m.Users)]
+			}
+			e := m.Env(u, Transports()[i%len(Transports())])
+			e.W = 10 * time.Second
+			t2, _, _, err := m.Stage(e, u, 4)
+			if err != nil {
+				atomic.AddInt32(&failed, 1)
+				return
+			}
+			t2.Close()
+		}(i)
+	}
+	wg.Wait()
+	t.ResumeReading()
+	t.Close()
+	bc.C.Close()
+	for _, u := range m.Users {
+		u.B.Reset()
+	}
+	rep.Eval(HashStr("stalled-neighbour", failed))
+	rep.Count("stalled_neighbour_probes", 1)
+	if failed > 0 && m.GW.Alive() {
+		rep.Violate("C07/setup-waits-for-other-tunnels/stalled-neighbour", fmt.Sprintf("a tunnel whose client had stopped reading ended with unframeable bytes; %d of 8 tunnels of other users opened afterwards did not get through their setup within 10 s", failed), nil)
 	}
 }
